@@ -37,9 +37,9 @@ OPS = ["fcA", "fcB", "fcAc", "fcV", "dsD1", "dsD2", "dispU", "prodF", "prodC", "
        "m0", "m1", "copy", "setF", "qQ", "qQd", "qM", "qMT", "qB"]
 QUERIES = ("qQ", "qQd", "qM", "qMT", "qB")
 # (root history, depth) per system: searching from non-initial states reaches longer histories at the same cost
-ROOTS = {"quick": {"NaCl": [([], 2), (["fcA"], 3), (["fcB", "nacG"], 2)], "wz": [(["fcB"], 2), (["fcA"], 2)], "NaClF": [(["fcA"], 2)], "NaClS": [([], 2)]},
+ROOTS = {"quick": {"NaCl": [([], 2), (["fcA"], 3), (["fcB", "nacG"], 2)], "wz": [(["fcB"], 2), (["fcA"], 2)], "NaClF": [(["fcA"], 2)], "NaClS": [([], 2), (["fcA", "qQ"], 1)]},
          "thorough": {"NaCl": [([], 3), (["fcA"], 4), (["fcB", "nacG"], 3), (["fcAc", "nacG", "qQ"], 3)], "wz": [([], 2), (["fcB"], 3), (["fcA"], 3)],
-                      "NaClF": [([], 2), (["fcA"], 3), (["fcV", "m1"], 3)], "NaClS": [([], 2), (["fcA"], 3)]}}
+                      "NaClF": [([], 2), (["fcA"], 3), (["fcV", "m1"], 3)], "NaClS": [([], 2), (["fcA"], 3), (["fcA", "qQ"], 2)]}}
 
 _env = {}
 
